@@ -363,3 +363,70 @@ def path_effects(p: tuple) -> list[str]:
 
 def path_exit(p: tuple) -> tuple[str, str]:
     return p[-1][1], p[-1][2]
+
+
+def propagate_locals(p: tuple, keep: tuple = ()) -> tuple:
+    """Path-local copy propagation: along one path, a plain local bound to an arithmetic expression over names, attribute chains
+    and constants (`end = start + 1`) is replaced by that expression in the later steps of the path, until it or something it
+    reads is re-bound.  The binding step itself is dropped.  Makes "name a sub-expression" / "re-bind a parameter" invisible to
+    rules that compare the effects on a path."""
+    from .common import norm_stmt
+    env: dict[str, ast.expr] = {}
+
+    def simple(e) -> bool:
+        for n in ast.walk(e):
+            if not isinstance(n, (ast.BinOp, ast.Name, ast.Constant, ast.Attribute, ast.operator, ast.expr_context, ast.UnaryOp, ast.unaryop)):
+                return False
+        return True
+
+    class Sub(ast.NodeTransformer):
+        def visit_Name(self, node):
+            if isinstance(node.ctx, ast.Load) and node.id in env:
+                import copy
+                return copy.deepcopy(env[node.id])
+            return node
+
+    def subst(text: str, mode: str) -> str:
+        if not env:
+            return text
+        try:
+            tree = ast.parse(text, mode=mode)
+        except SyntaxError:
+            return text
+        return norm_stmt(Sub().visit(tree))
+
+    def kill(names: set[str]):
+        for k in list(env):
+            if k in names or any(isinstance(n, ast.Name) and n.id in names for n in ast.walk(env[k])):
+                del env[k]
+
+    out = []
+    for x in p:
+        if x[0] == "do":
+            try:
+                st = ast.parse(x[1]).body[0]
+            except SyntaxError:
+                out.append(x)
+                continue
+            if isinstance(st, ast.Assign) and len(st.targets) == 1 and isinstance(st.targets[0], ast.Name) and st.targets[0].id not in keep:
+                val = Sub().visit(st.value)
+                kill({st.targets[0].id})
+                if simple(val) and not any(isinstance(n, ast.Name) and n.id == st.targets[0].id for n in ast.walk(val)):
+                    env[st.targets[0].id] = val
+                    continue
+                out.append(("do", norm_stmt(ast.Assign(targets=st.targets, value=val, lineno=0))))
+                continue
+            new = subst(x[1], "exec")
+            stored = {n.id for n in ast.walk(st) if isinstance(n, ast.Name) and isinstance(n.ctx, (ast.Store, ast.Del))}
+            if isinstance(st, ast.AugAssign) and isinstance(st.target, ast.Name):
+                stored.add(st.target.id)
+                new = x[1] if st.target.id in env else new
+            kill(stored)
+            out.append(("do", new))
+        elif x[0] == "cond":
+            out.append(("cond", subst(x[1], "eval"), x[2]))
+        elif x[0] == "exit" and x[2]:
+            out.append(("exit", x[1], subst(x[2], "eval")))
+        else:
+            out.append(x)
+    return tuple(out)
